@@ -151,4 +151,68 @@ theorem order_lang (ps : List Particle) (ms : List Member) (counts : List Nat)
       have h2 := ih g2 (counts.drop g1.length) hrest i2
       exact Re.Lang.seq h1 h2
 
+/-! ## Extension elements after the members -/
+
+theorem lang_seqL_append {σ α : Type} {sat : σ → α → Bool} (rs qs : List (Re σ)) (u v : List α)
+    (hu : Re.Lang sat (Re.seqL rs) u) (hv : Re.Lang sat (Re.seqL qs) v) :
+    Re.Lang sat (Re.seqL (rs ++ qs)) (u ++ v) := by
+  induction rs generalizing u with
+  | nil =>
+    have : u = [] := Re.lang_eps.mp (by simpa [Re.seqL] using hu)
+    subst this
+    simpa using hv
+  | cons r rs ih =>
+    simp only [Re.seqL] at hu
+    obtain ⟨u1, u2, rfl, h1, h2⟩ := Re.lang_seq.mp hu
+    have := Re.Lang.seq h1 (ih u2 h2)
+    simpa [Re.seqL, List.append_assoc] using this
+
+theorem extSplit_eq {ps pre : List Particle} {syms : List Sym} {lo : Nat}
+    (h : extSplit ps = some (pre, syms, lo)) : ps = pre ++ [.leaf syms lo none] := by
+  unfold extSplit at h
+  split at h
+  next s l hl =>
+    simp only [Option.some.injEq, Prod.mk.injEq] at h
+    obtain ⟨rfl, rfl, rfl⟩ := h
+    obtain ⟨ys, rfl⟩ := List.getLast?_eq_some_iff.mp hl
+    simp
+  · cases h
+
+/-- A class whose members follow the content model up to its final unbounded particle, with
+    extension elements that this particle admits: members first, extension elements last is a word
+    of the content model. -/
+theorem order_ext_lang (ps : List Particle) (ms : List Member) (counts : List Nat) (exts : List QN)
+    (hc : extCompat ps ms = true) (hi : instOk ms counts = true) (he : extsOk ps exts = true) :
+    Re.Lang Sym.sat (contentRe ps) (tagsOfExt ms counts exts) := by
+  unfold extCompat at hc
+  unfold extsOk at he
+  cases hs : extSplit ps with
+  | none => simp [hs] at hc
+  | some t =>
+    obtain ⟨pre, syms, lo⟩ := t
+    simp only [hs] at hc he
+    simp only [Bool.and_eq_true, decide_eq_true_eq] at he
+    obtain ⟨hlo, hall⟩ := he
+    have hps := extSplit_eq hs
+    have h1 := order_lang pre ms counts hc hi
+    have hletters : ∀ x ∈ exts, Re.Lang Sym.sat (Re.altL (syms.map Re.sym)) [x] := by
+      intro x hx
+      have := List.all_eq_true.mp hall x hx
+      obtain ⟨s, hs', hsat⟩ := List.any_eq_true.mp this
+      exact Re.lang_altL_mem (List.mem_map.mpr ⟨s, hs', rfl⟩) (Re.Lang.sym hsat)
+    have h2 : Re.Lang Sym.sat (Particle.re (.leaf syms lo none)) exts := by
+      simp only [Particle.re]
+      exact Re.lang_rep hletters hlo (by intro h hh; cases hh)
+    have h2' : Re.Lang Sym.sat (Re.seqL ([Particle.leaf syms lo none].map Particle.re)) exts := by
+      simpa [Re.seqL] using Re.Lang.seq h2 Re.Lang.eps
+    subst hps
+    unfold contentRe tagsOfExt
+    rw [List.map_append]
+    exact lang_seqL_append _ _ _ _ h1 h2'
+
+theorem nullable_altL_sym (syms : List Sym) : (Re.altL (syms.map Re.sym)).nullable = false := by
+  induction syms with
+  | nil => rfl
+  | cons s ss ih => simp [Re.altL, Re.nullable, ih]
+
 end Validate
